@@ -175,6 +175,7 @@ type run struct {
 	lhs    map[string]int
 	// the faulty peer left the script in some phase
 	offEver bool
+	mn      mocknet.Mocknet
 }
 
 func (r *run) emit(e drv.Step) {
@@ -472,7 +473,7 @@ func (r *run) step(nd *node, ph string) outcome {
 
 func (r *run) setup() error {
 	mn := mocknet.New()
-	r.t.Cleanup(func() { _ = mn.Close() })
+	r.mn = mn
 	for i := 0; i < r.n; i++ {
 		a, err := ma.NewMultiaddr(fmt.Sprintf("/ip4/10.%d.%d.%d/tcp/4242", (r.sid/250)%250, r.sid%250, i+1))
 		if err != nil {
@@ -664,6 +665,12 @@ func runSchedule(t *testing.T, sid int, steps []drv.Step, clusters map[[2]int]*c
 	r := &run{t: t, sid: sid, c: clusters[[2]int{n, nv}], n: n, nv: nv, f: f, plan: decodePlan(cfg["plan"]), ctx: ctx, cancel: cancel,
 		lhs: map[string]int{}}
 	r.emit(drv.Step{"ev": "Reset", "sid": sid, "n": n, "V": nv, "f": f, "plan": cfg["plan"]})
+	defer func() {
+		cancel()
+		if r.mn != nil {
+			_ = r.mn.Close()
+		}
+	}()
 	if err := r.setup(); err != nil {
 		t.Errorf("schedule %d: setup: %v", sid, err)
 		return r.evs, false
